@@ -611,6 +611,13 @@ func (x *bexec) execTx(line, kind string, t []string) {
 		msg := &ethtypes.MsgSetBlacklist{From: w.acctStr(t[0]), Addresses: l}
 		cls, _ := w.deliver(msg)
 		x.emit(line, cls, "bl."+cls, cls == "ok")
+		if cls == "ok" {
+			// C07: "the receiver is blacklisted" means the admin's latest accepted list; what the keeper
+			// stored for it is judged by the Lean predicate blSetOK
+			blA := w.app.EthbridgeKeeper.GetBlacklist(w.ctx)
+			sort.Strings(blA)
+			x.emit(fmt.Sprintf("chk blset tag=ethbridge.SetBlacklist.stores req=%s bl=%s", listOrDash(l), listOrDash(blA)), "true", "chk.blset", len(l) > 0)
+		}
 	case "recv":
 		msg := ethtypes.MsgUpdateCethReceiverAccount{CosmosSender: w.acctStr(t[0]), CethReceiverAccount: w.acctStr(t[1])}
 		cls, _ := w.deliver(&msg)
